@@ -130,10 +130,18 @@ def describe(T: str, root_resolved: str, jail_abs: str, exts) -> dict:
                     ent["lexin"] = _inside(lex, jail_abs)
                 entries.append(ent)
         dirs.append({"c": canon_id(T, c), "entries": entries})
+    nested = set()
     for m in mentioned:
         if _inside(m, jail_abs):
             jail.add(canon_id(T, m))
-    return {"root": canon_id(T, root_resolved), "dirs": dirs, "jail": sorted(jail), "toml": sorted(toml)}
+        # inside a nested project without being its root: a proper ancestor strictly below the scan root has a snooty.toml
+        anc = os.path.dirname(m)
+        while _inside(anc, root_resolved) and anc != root_resolved:
+            if os.path.exists(os.path.join(anc, "snooty.toml")):
+                nested.add(canon_id(T, m))
+                break
+            anc = os.path.dirname(anc)
+    return {"root": canon_id(T, root_resolved), "dirs": dirs, "jail": sorted(jail), "toml": sorted(toml), "nested": sorted(nested)}
 
 
 def args_of(case, T):
@@ -167,13 +175,16 @@ def oracle_facts(T, root: Path, jail_abs: str, exts, yielded, diag_keys):
         yown.add(os.path.normpath(os.path.join(root_real, os.path.relpath(ya, root_abs))))
         if not _inside(r, jail_real):
             escapes.append([os.path.relpath(ya, root_abs), canon_id(T, r)])
-        # proper ancestors strictly below the scan root
-        anc = os.path.dirname(ya)
-        while _inside(anc, root_abs) and anc != root_abs:
-            if os.path.exists(os.path.join(anc, "snooty.toml")):
-                below_nested.append([os.path.relpath(ya, root_abs), os.path.relpath(anc, root_abs)])
-                break
-            anc = os.path.dirname(anc)
+        # proper ancestors strictly below the scan root - of the path as yielded, and of the REAL directory the file was found in
+        # (a link into a sub-directory of a nested project leads into that project just as well)
+        hit = False
+        for start, base in ((os.path.dirname(ya), root_abs), (os.path.realpath(os.path.dirname(ya)), root_real)):
+            anc = start
+            while not hit and _inside(anc, base) and anc != base:
+                if os.path.exists(os.path.join(anc, "snooty.toml")):
+                    below_nested.append([os.path.relpath(ya, root_abs), os.path.relpath(anc, base)])
+                    hit = True
+                anc = os.path.dirname(anc)
     missing, unreported, nested = [], [], []
     reported = {os.path.normpath(os.path.join(root_abs, k)) for k in diag_keys}
 
